@@ -51,5 +51,18 @@ PROPS["C19"] = {
     "replay_help": "case.tree is the stage tree (o: 0 ok, 1 error, 2 panic; a: async); observed is what the real pipeline did; correspondence_code 1 = callbacks/completed-stage count differ from the model; oracle_code 1 = not exactly one callback, or its error flag differs from 'some executed stage failed', or (without panic) stages were unfinished at the callback, or no callback (hang)",
 }
 
+PROPS["C13"] = {
+    "harness": "c13",
+    "props_files": ["C13/Props.v"],
+    "n": {"quick": 400, "thorough": 10000},
+    "level_text": "Theorems (Coq, no axioms, unbounded): over a proleptic Gregorian calendar model (civil_from_days/days_from_civil proved mutually consistent for every day number) each of the day/month/year calculators satisfies, for EVERY millisecond timestamp >= 0, every fixed zone offset and every positive interval: the family range contains the timestamp, the millisecond after a family's end starts the next family (tiling), any timestamp inside a family maps to that family, and start + slot*interval is within one interval below the timestamp; the planner picks a stored interval, a positive whole multiple and an aligned covering range. Tied to the code by evaluating all calculator methods and the planner on month/leap/year boundary timestamps and random ones and comparing every number.",
+    "level_note": "Trusted: the calendar model's agreement with Go's time package (validated on boundary tables, not proved), fixed-offset zones only (DST zones are outside the model), segment-name formatting is checked by the harness directly.",
+    "rule": "calculator cases: timestamps within 1 ms / 1 h / 1 day of first, last, 30th, 31st days of months (leap years included) and random ms timestamps 1970-2200, interval type and value drawn from the allowed values of that type; planner cases: random option interval sets, ranges from 0 ms to 400 days and query intervals; non-trivial = boundary timestamp, resp. planner case that changes the requested interval or range with >= 2 stored intervals; distinct = different JSON",
+    "trusted": ["modelled, not verified: Go's time.Date/Unix (the model is Hinnant's algorithm with a fixed offset), FormatTimestamp/ParseTimestamp (round trip checked directly by the harness)", "DST time zones are outside the model"],
+    "assumptions": ["timestamps are >= 0 ms (Go's / and % truncate toward zero; LinDB's slot arithmetic is for non-negative offsets)", "the process time zone is a fixed offset (the harness sets time.Local to UTC and, by seed/tier, to +08:00, -05:00, +05:30)"],
+    "statement_status": {"get_families_cross_segment": "see known_findings.json / DESIGN.md section 7 (month/year CalcFamily ignores the segment): observed through C11's data-family lookup"},
+    "replay_help": "case.kind=calc: (off seconds, type 0 day/1 month/2 year, ts ms, interval ms): correspondence_code 1 = some calculator output differs from the model, oracle_code 1 = the implementation's own numbers violate containment/tiling/idempotence/slot bound; case.kind=plan: planner inputs",
+}
+
 for _pid in PROPS:
     NOT_APPLICABLE.pop(_pid, None)
